@@ -55,6 +55,10 @@ func (t *Tr) isPureGlob(key string) bool {
 			return true
 		}
 	}
+	// instance of a generic function: the declaration names the generic
+	if i := strings.Index(key, "["); i > 0 && !strings.HasPrefix(key, "(") {
+		return t.isPureGlob(key[:i])
+	}
 	return false
 }
 
@@ -75,6 +79,14 @@ func (t *Tr) findContract(c *ssa.CallCommon) (*Contract, string) {
 			return ct, tk
 		}
 		return nil, ""
+	}
+	if t.c != nil {
+		if an, ok := t.c.CallAs[key]; ok {
+			if ac := t.w.CS.Abstract[an]; ac != nil {
+				t.vc.Trusted["calls of "+key+" in this function are specified by the local contract "+an] = true
+				return ac, "abstract:" + an
+			}
+		}
 	}
 	if ct, ok := t.w.CS.ByName[key]; ok {
 		return ct, key
